@@ -8,20 +8,29 @@ LEAN_MODULE = "Ctrmml.Properties.C02"
 THEOREMS = ["C02_stream_ends_with_finish_partial", "C02_codec_roundtrip_linear", "C02_codec_roundtrip_segno",
             "C02_codec_roundtrip_segno_once", "C02_codec_roundtrip_loops_nobreak_partial",
             "C02_convert_structured_eq", "C02_codec_roundtrip_loops", "C02_codec_roundtrip_track",
-            "C02_stream_at_offset_partial", "C02_call_return_partial", "C02_double_break_fixed"]
+            "C02_stream_at_offset_partial", "C02_call_return_partial", "C02_double_break_fixed",
+            "C02_track_at_offset_partial", "C02_track_shapes_convert", "C02_song_roundtrip_partial"]
 LEVEL = "proof"
 STREAM = "conv.events+conv.seq"
 CHUNK = 100
 TECHNIQUE = "Lean 4 theorems over the converter model (codec register invariant, structure of emitted streams) + spec interpreter of the real bytes + differential correspondence model<->mdsdrv.cpp"
-LEVEL_TEXT = ("see DESIGN §6 C02 and the theorem list in lean/Ctrmml/Properties/C02.lean: the length-compression codec of convert_track (real model) followed by the spec interpreter "
-              "Seq.run is proved to give back the tick string for the linear fragment (all durations 1..65535, all adjacencies, 128-tick splitting, length disambiguation), for a loop "
-              "point + loop-back jump (any number of rounds; the D4 join), for nested counted loops with and without break, and for both combined (loops on both sides of a depth-0 loop point) (convert_track proved equal to a structured two-pass "
-              "encoder, C02_convert_structured_eq, then decoded structurally), from arbitrary initial register contents; building blocks for whole chunks: a compiled stream at any offset with any stacks, and the call/return join (PAT); the whole-song statement (interpretation of the bytes = expansion of the track) is kept as C02_full_statement and is decided "
-              "per case by the spec interpreter Spec/SeqInterp run on the REAL bytes against Spec/Timeline (perf with drum routines resolved), on generated songs covering every "
-              "adjacency of note/tie/rest/command/loop point/loop boundary/call and durations 1..65535; the model reproduces the real converter byte for byte on the same cases.")
-LEVEL_NOTE = ("Trusted: Lean kernel; Model/MdsCodec+MdsConv (byte-exact agreement with mdsdrv.cpp by differential testing); Spec/SeqInterp = my reconstruction of the MDSDRV "
-              "sequence rules (driver source not in the repository); instrument tables are inputs (C11 models them). Proof covers the codec's linear fragment; loops/calls/back-patching "
-              "rest on the interpreter oracle + correspondence (partial).")
+LEVEL_TEXT = ("see DESIGN §6 C02 and the theorem list in lean/Ctrmml/Properties/C02.lean. Three layers, all machine-checked. (1) Codec: convert_track (real model) followed by the spec "
+              "interpreter Seq.run gives back the tick string for every single track over the linear fragment (all durations 0..65535, all adjacencies, 128-tick splitting, length "
+              "disambiguation) with nested counted loops with ANY NUMBER of breaks per loop (only the first is emitted: D23 fix), subroutine calls (annotated with what the callee plays) "
+              "and a depth-0 loop point + loop-back jump, at any offset of a chunk, in the three shapes end_hook produces (FINISH / SEGNO..JUMP / SEGNO..FINISH); convert_track is proved "
+              "equal to a structured two-pass encoder in both directions (C02_convert_structured_eq and its converse for streams < 64 KiB). (2) Writer: MDSDRV_Track_Writer run over a "
+              "well-formed track of the plain fragment emits exactly the flat event list of its events (hidden hook calls inside repeated loop passes and calls change nothing), carried "
+              "through the mutually recursive get_subroutine by an invariant. (3) Whole songs: C02_song_roundtrip_partial — for every song of the plain fragment (no drum mode, platform "
+              "commands, macro tracks, pitch envelopes; front-end timing; called tracks without loop point; <= 1 loop point per channel; chunk < 64 KiB) and every channel track in "
+              "Timeline.inDomain, the interpreter started at the position the track table lists plays, after masking of index operands, exactly Timeline.expected (calls to any depth "
+              "through the pointer table, what is replayed after the loop-back jump). Outside the fragment (drum routines, platform commands, macro tracks, pitch envelopes, optimised "
+              "songs) the statement C02_full_statement is decided per case by the spec interpreter on the REAL bytes against Spec/Timeline; the judge marks the cases that are instances "
+              "of the whole-song theorem (ok proved-fragment) and cross-checks the constructor model the theorem is stated over (MdsFile.construct) against the real bytes.")
+LEVEL_NOTE = ("Trusted: Lean kernel; Model/MdsCodec+MdsConv+MdsFile (byte-exact agreement with mdsdrv.cpp by differential testing); Spec/SeqInterp = my reconstruction of the MDSDRV "
+              "sequence rules (driver source not in the repository); Spec/Timeline+Expand; instrument tables are inputs (C11 models them). Proved for all inputs: single tracks of the "
+              "codec fragment, and whole songs of the plain fragment (partial: extra hypotheses = chunk < 64 KiB, at most one loop point per channel track, called tracks without loop "
+              "point, no pitch envelope/macro track/drum mode/platform command, acceptance by the constructor). Still decided per case by the oracle: drum routines, platform commands, "
+              "macro tracks, pitch envelopes, optimised songs (D2), acceptance (that the converter accepts every encodable song). Known: D2, D24 (loop point in a called channel track).")
 RULE = ("IR songs in the encodable domain from the song grammar (1..4 channel tracks, subroutines, drum routines, loops with breaks, loop point at depth 0, commands, platform commands, "
         "instruments) + adjacency sweep: ordered triples over {explicit note, implicit-length note, tie, rest<128, rest>=128, rest=last rest, command, SEGNO, LP, LPB, LPF, PAT} x durations "
         "{1,2,127,128,129,256,65535}; non-trivial = has loop/call/segno/long duration; distinct by request text")
@@ -41,6 +50,12 @@ CORPUS = [
     "conv P:-32768=, T0:2.36.2.0,11.-32768.0.0",
     "conv T0:4.0.0.0,2.36.24.0,5.0.0.0,2.38.24.0,5.0.0.0,2.40.24.0,6.2.0.0",                   # D23 (fixed): [c / d / e]2
     "conv T0:4.0.0.0,2.36.2.0,2.36.2.0,5.0.0.0,1.0.0.4,5.0.0.0,2.40.2.0,6.2.0.0",              # D23 (fixed): [c c / r / e]2
+    # the non-vacuity song of C02_song_roundtrip_partial: A c L [d / *100 / e]2, *100 f r  (judge: ok proved-fragment)
+    "conv T0:2.36.24.0,7.0.0.0,4.0.0.0,2.38.12.12,5.0.0.0,8.100.0.0,5.0.0.0,2.40.24.0,6.2.0.0 T100:2.41.6.6,1.0.0.3",
+    # calls three deep, a break inside a called track, a zero-time loop section
+    "conv T0:2.36.24.0,8.100.0.0,7.0.0.0,13.5.0.0 T100:4.0.0.0,8.101.0.0,5.0.0.0,2.38.6.0,6.3.0.0 T101:8.102.0.0,3.0.4.2 T102:2.50.1.1",
+    "conv T0:2.36.24.0,7.0.0.0,2.38.24.0,7.0.0.0,2.40.24.0",     # two loop points: the last one counts (outside the proved fragment, judged by the oracle)
+    "conv T0:8.1.0.0,2.36.24.0 T1:2.38.24.0,7.0.0.0,2.40.24.0",  # D24 (known): a call to a channel track that has a loop point never returns
 ]
 
 DURS = [1, 2, 127, 128, 129, 256, 65535]
@@ -188,6 +203,43 @@ def outcome_class(a):
     return a.split(" ")[0][:40]
 
 
+PROVED = {"n": 0, "judged": 0}
+
+
+def extra_fail(case, impl, judge):
+    """never fails a case: counts the cases that are instances of the whole-song theorem"""
+    if judge.startswith("ok"):
+        PROVED["judged"] += 1
+        if "proved-fragment" in judge:
+            PROVED["n"] += 1
+    return False
+
+
+def _report():
+    if PROVED["judged"]:
+        print("[check] %d of %d cases judged ok are instances of the hypotheses of the whole-song theorem (ok proved-fragment)" % (PROVED["n"], PROVED["judged"]))
+
+
+import atexit
+atexit.register(_report)
+
+
+def segno_in_callee(req):
+    """D24: some JUMP names a track that contains a loop point"""
+    try:
+        song = songgen.parse_request_song(req)
+        T = songgen.event_types()
+    except Exception:
+        return False
+    for evs in song.values():
+        for e in evs:
+            if e[0] == T["JUMP"]:
+                tgt = e[1] % 65536
+                if tgt in song and any(x[0] == T["SEGNO"] for x in song[tgt]):
+                    return True
+    return False
+
+
 def finding_key(case, impl, judge):
     if impl.startswith("crash") or impl == "timeout" or impl.startswith("uncaught"):
         m = re.search(r"(\w+\.cpp:\d+)", impl)
@@ -202,6 +254,8 @@ def finding_key(case, impl, judge):
     if "interpreter stopped" in judge:
         m = re.search(r"stopped with Ctrmml.Seq.Stop.(\w+)", judge)
         return "stream-broken:" + (m.group(1) if m else "x")
+    if case.req.startswith("conv ") and segno_in_callee(case.req):
+        return "segno-in-callee"
     return "timeline-differs"
 
 
